@@ -192,14 +192,20 @@ CLAIMED = {
     "C06": dict(
         technique="TLA+ grammar of elements/separators with a model of the two-stage extraction (which descriptions are "
                   "compositional), enumerated by TLC; every description parsed whole and element by element; TLC trace "
-                  "validation whole = concatenation of parts + side conditions; model prediction bound as drift",
+                  "validation whole = concatenation of parts + side conditions, and every aliquot-chain element's own yield "
+                  "validated against spec/Aliquot.tla (tiling + depth clauses) under the case's depth settings; model "
+                  "prediction bound as drift",
         text="TLC enumerates every sequence of up to 3-4 elements (single lot, lot range, lot list, lot with acreage, aliquot "
              "of lots, aliquot chain, ALL) x separators (comma, semicolon, line break) x suppress_lot_divs and checks that "
              "punctuation separates elements and that every non-compositional case is one of two named deviations; each case "
              "and random sequences up to 8 elements are rendered with random numbers / spellings and parsed as a whole and "
              "element by element; TLC checks lots and aliquots of the whole = concatenation of the parts, lots_qqs = lots + "
              "qqs, ilots mirror lots, division prefix rule, acreage attribution, dup_lot / dup_qq present iff a repeat exists, "
-             "and that the extraction model predicts exactly which descriptions are compositional (drift). Failures are "
+             "and that the extraction model predicts exactly which descriptions are compositional (drift). What an aliquot-chain "
+             "element (1-4 components) yields on its own is not taken on the library's word: its pieces are a second trace "
+             "(spec/AliquotTrace.tla) judged by the C02 clauses of spec/Aliquot.tla under the case's depth settings (12 "
+             "settings, incl. qq_depth_max x break_halves), and a lot element must yield exactly the lot numbers written in it (lots_ok), so a whole and its parts that are wrong "
+             "alike are reported. Failures are "
              "attributed to the open findings F10 / F12 only counterfactually (trigger present and neutralising it makes the "
              "property hold).",
         note="Known findings F10 (line break after an aliquot chain fuses) and F12 (ALL counts only when last) are listed in "
